@@ -388,6 +388,25 @@ func (e *Engine) Truth() (publishes, handlerRuns, handlerPanics, persistAttempts
 	return
 }
 
+// TruthByMode splits handler runs and panics by dispatch mode (index 0 synchronous, 1 asynchronous).
+func (e *Engine) TruthByMode() (runs, panics [2]int) {
+	for _, t := range e.Trace {
+		i := 0
+		if t.Async {
+			i = 1
+		}
+		switch t.K {
+		case "h.enter":
+			runs[i]++
+		case "h.exit":
+			if t.Err {
+				panics[i]++
+			}
+		}
+	}
+	return
+}
+
 // ObsSignature summarises which handler outcomes × persist outcomes were seen per publish.
 func (e *Engine) ObsSignature() (sig string, nontrivial bool) {
 	set := map[string]struct{}{}
